@@ -11,5 +11,6 @@ mod select_case_linter;
 mod undefined_function_reducer;
 mod user_defined_function_linter;
 mod user_defined_sub_linter;
+mod whole_array_linter;
 
 pub use self::main::post_linter;
